@@ -67,7 +67,7 @@ class WB:
         return out
 
     # -- openpyxl workbook with the given input values
-    def to_openpyxl(self, inputs=None):
+    def to_openpyxl(self, inputs=None, extra=None):
         import openpyxl
         wb = openpyxl.Workbook()
         ws = wb.active
@@ -79,6 +79,8 @@ class WB:
                     ws.cell(row=n['row'], column=1, value=v)
             elif n['kind'] == 'formula':
                 ws.cell(row=n['row'], column=1, value=n['text'])
+        for (row, col), v in (extra or {}).items():
+            ws.cell(row=row, column=col, value=v)
         return wb
 
     def index_of(self, addr):
